@@ -101,3 +101,53 @@ Proof.
   induction w as [|c w IH]; intros H; [reflexivity|]. inversion H as [|? ? Hc Hw]; subst.
   rewrite runes_unfold. unfold decode1. apply N.ltb_lt in Hc. rewrite Hc. f_equal. apply IH. exact Hw.
 Qed.
+
+(* a rune below 128 is a byte of the string: multi-byte sequences decode to 128 or more, errors to U+FFFD *)
+From Coq Require Import ZifyN ZifyBool.
+Lemma decode1_small s r rest : decode1 s = Some (r, rest) -> r < 128 -> exists c tl, s = c :: tl /\ r = c.
+Proof.
+  unfold decode1. destruct s as [|c0 r0]; [discriminate|].
+  destruct (c0 <? 128) eqn:E0; [intros H _; inversion H; subst; eauto|].
+  intros H Hr. exfalso. apply N.ltb_ge in E0.
+  assert (Hbad : Some (rune_error, r0) = Some (r, rest) -> False) by (intros X; inversion X; subst; unfold rune_error in Hr; lia).
+  unfold cont, in_rng in H.
+  destruct ((194 <=? c0) && (c0 <=? 223)) eqn:E1.
+  { destruct r0 as [|c1 r1]; [exact (Hbad H)|]. destruct ((128 <=? c1) && (c1 <=? 191)) eqn:Ec; [|exact (Hbad H)].
+    inversion H; subst. lia. }
+  destruct ((224 <=? c0) && (c0 <=? 239)) eqn:E2.
+  { destruct r0 as [|c1 [|c2 r2]]; try exact (Hbad H).
+    destruct (c0 =? 224) eqn:E224; destruct (c0 =? 237) eqn:E237;
+      match type of H with (if ?c then _ else _) = _ => destruct c eqn:Ec end; try exact (Hbad H); inversion H; subst; lia. }
+  destruct ((240 <=? c0) && (c0 <=? 244)) eqn:E3.
+  { destruct r0 as [|c1 [|c2 [|c3 r3]]]; try exact (Hbad H).
+    destruct (c0 =? 240) eqn:E240; destruct (c0 =? 244) eqn:E244;
+      match type of H with (if ?c then _ else _) = _ => destruct c eqn:Ec end; try exact (Hbad H); inversion H; subst; lia. }
+  exact (Hbad H).
+Qed.
+
+Lemma decode1_suffix s r rest : decode1 s = Some (r, rest) -> exists pre, s = pre ++ rest.
+Proof.
+  unfold decode1. destruct s as [|c0 q0]; [discriminate|].
+  destruct (c0 <? 128); [intros H; injection H as _ <-; exists [c0]; reflexivity|].
+  destruct (in_rng 194 223 c0).
+  { destruct q0 as [|c1 q1]; [intros H; injection H as _ <-; exists [c0]; reflexivity|].
+    destruct (cont c1); intros H; injection H as _ <-; [exists [c0; c1] | exists [c0]]; reflexivity. }
+  destruct (in_rng 224 239 c0).
+  { destruct q0 as [|c1 [|c2 q2]]; try (intros H; injection H as _ <-; exists [c0]; reflexivity).
+    destruct (_ && _); intros H; injection H as _ <-; [exists [c0; c1; c2] | exists [c0]]; reflexivity. }
+  destruct (in_rng 240 244 c0).
+  { destruct q0 as [|c1 [|c2 [|c3 q3]]]; try (intros H; injection H as _ <-; exists [c0]; reflexivity).
+    destruct (_ && _ && _); intros H; injection H as _ <-; [exists [c0; c1; c2; c3] | exists [c0]]; reflexivity. }
+  intros H; injection H as _ <-; exists [c0]; reflexivity.
+Qed.
+
+Theorem runes_small_in : forall s r, In r (runes s) -> r < 128 -> In r s.
+Proof.
+  intros s. remember (length s) as n eqn:Hn. revert s Hn.
+  induction n as [n IH] using lt_wf_ind. intros s Hn r Hin Hr.
+  rewrite runes_unfold in Hin. destruct (decode1 s) as [[r0 rest]|] eqn:E; [|contradiction].
+  pose proof (decode1_length _ _ _ E) as Hl. destruct Hin as [<-|Hin].
+  - destruct (decode1_small _ _ _ E Hr) as (c & tl & -> & ->). left. reflexivity.
+  - assert (Hrest : In r rest) by (apply (IH (length rest)); [subst n; exact Hl | reflexivity | exact Hin | exact Hr]).
+    destruct (decode1_suffix _ _ _ E) as [pre ->]. apply in_or_app. right. exact Hrest.
+Qed.
